@@ -696,10 +696,47 @@ func keyFromSameMap(lk *ssa.Lookup) bool {
 			}
 		case *ssa.Slice:
 			return ok(x.X, d+1)
+		case *ssa.UnOp:
+			// the key list of the enclosing function, captured by a closure
+			// (a sort.Slice comparator looking the entries up by name)
+			if fv, isFV := x.X.(*ssa.FreeVar); isFV && x.Op == token.MUL {
+				fn := fv.Parent()
+				par := fn.Parent()
+				if par == nil {
+					return false
+				}
+				for k, q := range fn.FreeVars {
+					if q != fv {
+						continue
+					}
+					res := false
+					eachInstr(par, func(_ *ssa.BasicBlock, i ssa.Instruction) {
+						mc, isMC := i.(*ssa.MakeClosure)
+						if !isMC || mc.Fn != ssa.Value(fn) || k >= len(mc.Bindings) {
+							return
+						}
+						if cell, isAl := mc.Bindings[k].(*ssa.Alloc); isAl && cell.Referrers() != nil {
+							for _, r := range *cell.Referrers() {
+								if st, isSt := r.(*ssa.Store); isSt && st.Addr == ssa.Value(cell) && ok(st.Val, d+1) {
+									res = true
+								}
+							}
+						}
+					})
+					return res
+				}
+			}
 		}
 		return false
 	}
 	return ok(slice, 0)
+}
+
+// normAccessKey makes the access path of a value seen from a closure (captured
+// variables, one more dereference) comparable with the same path seen from the
+// enclosing function.
+func normAccessKey(s string) string {
+	return strings.ReplaceAll(strings.ReplaceAll(s, "*", ""), "fv:", "p:")
 }
 
 // rangeKeyOf: v is the key extracted from a range over the map with access path mkey.
@@ -713,7 +750,7 @@ func rangeKeyOf(v ssa.Value, mkey string) bool {
 		return false
 	}
 	rg, ok := nx.Iter.(*ssa.Range)
-	return ok && exprKey(rg.X, 0) == mkey
+	return ok && (exprKey(rg.X, 0) == mkey || normAccessKey(exprKey(rg.X, 0)) == normAccessKey(mkey))
 }
 
 // riskyStringSource: strings whose content is decided by the model: results of
